@@ -51,6 +51,8 @@ pub struct Alphabet {
     pub close_balance: bool,
     pub liquidate: bool,
     pub liquidate_padded: bool,
+    /// borrows, withdrawals, a repay-all and a deposit also inside a flash-loan bracket of the acting account
+    pub flash_wrap: bool,
     /// a third party's receivership bracket (start, repay, withdraw, end) at two sizes with a fair repayment
     pub receivership: bool,
     pub bankruptcy: bool,
@@ -93,6 +95,7 @@ impl Alphabet {
             close_balance: true,
             liquidate: true,
             liquidate_padded: false,
+            flash_wrap: false,
             receivership: false,
             bankruptcy: true,
             accrue: true,
@@ -409,6 +412,19 @@ impl Model for Hist {
                 v.push(Action::CloseBank { b });
             }
         }
+        if al.flash_wrap {
+            let mut seen_dep = std::collections::BTreeSet::new();
+            let wrapped: Vec<Action> = v
+                .iter()
+                .filter(|a| match a {
+                    Action::Borrow { .. } | Action::Withdraw { .. } | Action::Repay { all: true, .. } => true,
+                    Action::Deposit { u, b, up_to_limit: None, .. } => seen_dep.insert((*u, *b)),
+                    _ => false,
+                })
+                .map(|a| Action::InFlashloan { base: Box::new(a.clone()) })
+                .collect();
+            v.extend(wrapped);
+        }
         if al.vault_swaps {
             // every vault of a bank the instruction names, for the instructions that name vaults
             let base: Vec<Action> = v.iter().filter(|a| matches!(a, Action::Bankruptcy { .. } | Action::CollectFees { .. } | Action::Liquidate { amt: 1, .. }) || matches!(a, Action::Deposit { amt: 1, .. } | Action::Repay { amt: 1, .. } | Action::Withdraw { amt: 1, all: false, .. } | Action::Borrow { amt: 1, .. })).cloned().collect();
@@ -492,6 +508,7 @@ pub fn action_kind(a: &Action) -> &'static str {
         Action::CloseBalance { .. } => "close_balance",
         Action::Liquidate { .. } => "liquidate",
         Action::LiquidatePadded { .. } => "liquidate_padded",
+        Action::InFlashloan { .. } => "in_flashloan",
         Action::Receivership { .. } => "receivership",
         Action::Bankruptcy { .. } => "bankruptcy",
         Action::Accrue { .. } => "accrue",
@@ -788,6 +805,7 @@ fn involved_banks(a: &Action) -> Vec<usize> {
     match a {
         Action::Deposit { b, .. } | Action::Withdraw { b, .. } | Action::Borrow { b, .. } | Action::Repay { b, .. } | Action::CloseBalance { b, .. } | Action::Bankruptcy { b, .. } => vec![*b],
         Action::Liquidate { asset, liab, .. } | Action::LiquidatePadded { asset, liab, .. } => vec![*asset, *liab],
+        Action::InFlashloan { base } => involved_banks(base),
         _ => vec![],
     }
 }
@@ -939,7 +957,7 @@ impl StepOracle for NoFreeValueOracle {
         // an instruction re-issued with a look-alike in the place of one of the bank's vaults is judged like the
         // instruction itself: the position may be credited only what reached the bank's real vault
         let a_eff: &Action = match c.a {
-            Action::WithVaultSwap { base, .. } => base.as_ref(),
+            Action::WithVaultSwap { base, .. } | Action::InFlashloan { base } => base.as_ref(),
             x => x,
         };
         let (u, b) = match a_eff {
